@@ -7,28 +7,12 @@ invariant `Inv`.
 -/
 import X86Model.Model.Gdt
 import X86Model.Spec.GdtTable
+import X86Model.Proofs.GdtDefs
 import X86Model.Properties.C15
 import Std.Tactic.BVDecide
 
 namespace X86.C14
-open X86 X86.Spec
-
-/-- The model's descriptor as the spec's. -/
-def toSpec : Descriptor → Desc
-  | .user v => .user v
-  | .system lo hi => .system lo hi
-
-/-- The slots in use: `table[..len]` (what `entries()` returns). -/
-def slots (g : Gdt) : List (BitVec 64) := g.table.take g.len
-
-/-- The representation invariant of `GlobalDescriptorTable<MAX>`: the array has `MAX` elements,
-`1 ≤ len ≤ MAX ≤ 2^13`, slot 0 is the null descriptor. -/
-structure Inv (g : Gdt) : Prop where
-  tlen : g.table.length = g.max
-  pos : 1 ≤ g.len
-  le : g.len ≤ g.max
-  cap : g.max ≤ 8192
-  null : g.table[0]? = some 0#64
+open X86 X86.Spec X86.GdtProof
 
 theorem slots_length (g : Gdt) (h : Inv g) : (slots g).length = g.len := by
   unfold slots; rw [List.length_take, h.tlen]; exact Nat.min_eq_left h.le
@@ -152,18 +136,6 @@ theorem append_full (g : Gdt) (d : Descriptor) (h : Inv g)
     simp only [toSpec, Desc.words, List.length_cons, List.length_nil] at hfull
     have hc : g.len > g.table.length - 2 := by rw [h.tlen]; omega
     simp only [Gdt.append, hc, if_true]
-
-/-- Model outcome vs spec outcome of one call. -/
-def outOk : R (BitVec 16) → Option SelFields → Prop
-  | .ok sel, some sf => decodeSel sel = sf
-  | .panic, none => True
-  | _, _ => False
-
-/-- Outcomes of a whole history, call by call. -/
-def outsOk : List (R (BitVec 16)) → List (Option SelFields) → Prop
-  | [], [] => True
-  | r :: rs, o :: os => outOk r o ∧ outsOk rs os
-  | _, _ => False
 
 /-- One append against the spec: same decision (fits / panics), same slots, same selector. -/
 theorem append_spec (g : Gdt) (d : Descriptor) (h : Inv g) :
